@@ -289,9 +289,10 @@ impl VariablesState {
             old_value = self.global_variables.get(name).cloned();
         }
 
-        if let Some(old_value) = &old_value {
-            Value::retain_list_origins_for_assignment(old_value.as_ref(), value.as_ref());
-        }
+        let value = match &old_value {
+            Some(old_value) => Value::retain_list_origins_for_assignment(old_value.as_ref(), value),
+            None => value,
+        };
 
         if let Some(patch) = &mut self.patch {
             patch.set_global(name, value.clone());
